@@ -586,9 +586,9 @@ def main(tier, replay=None):
 
     nas = 5 if quick else 12
 
-    mlcap = 12 if quick else 33
+    mlcap = 12 if quick else 24
     lens_small = [1, 1, 2, 2, 3, 3, 4, 5, 6, 7, 8, 9, 12, 16, 17]
-    lens_big = [24, 31, 32, 33, 40] if quick else [24, 31, 32, 33, 40, 64, 65, 100, 150]
+    lens_big = [24, 31, 32, 33, 40] if quick else [24, 31, 32, 33, 40, 64, 65, 100]
     ODD = SMALL_PRIMES[1:]
 
     def grid_moduli(n, salt, allow2):
@@ -630,7 +630,7 @@ def main(tier, replay=None):
                 rs = grid_residues(ps)
                 add_sys("int", hist, fit_tt(INT_TTS[gi % len(INT_TTS)], rs), ps, rs, grid_as(ps), ctor=ctor, order=order, grid=True)
     # ---- IntRNSsystem, random part
-    rounds = 3 if quick else 50
+    rounds = 3 if quick else 30
     for rnd in range(rounds):
         for hist in INT_HISTS:
             for tt in ["Integer", "int64", "uint64", "int32", "uint32"]:
@@ -670,7 +670,7 @@ def main(tier, replay=None):
                 rs = grid_residues(ps)
                 add_sys("rns", hist, dom, ps, rs, grid_as(ps), order=order, grid=True)
     # ---- RNSsystem, random part
-    for rnd in range(2 if quick else 40):
+    for rnd in range(2 if quick else 20):
         for hist in DOM_HISTS:
             for dom in DOMS:
                 if quick and (rnd + DOM_HISTS.index(hist) + DOMS.index(dom)) % 2:
@@ -868,7 +868,7 @@ def main(tier, replay=None):
         return chk.finish()
     mout = None
     if drv:
-        rc, mout, merr = run_par(drv, [c["model"] for c in cases], nproc=(6 if quick else 10), timeout=1700)
+        rc, mout, merr = run_par(drv, [c["model"] for c in cases], nproc=(6 if quick else 10), timeout=(900 if quick else 2400))
         if "[timeout]" in merr:
             inconclusive.append("extracted model driver hit the time limit of the check: correspondence not compared on this run")
             mout = None
